@@ -13,7 +13,7 @@ try:
 except Exception:
     meta = {}
 meta["property"] = pid
-meta["confirmed_by_me"] = "tools/confirm_mutant.sh: demo exits 0 on the clean scratch worktree and non-zero with the patch; pinned suite: all 382 baseline tests still pass with the patch (test_cholesky_factorization is load-sensitive and ignored)"
+meta["confirmed_by_me"] = "tools/confirm_mutant(_par).sh: demo exits 0 on the clean scratch worktree and non-zero with the patch; pinned suite: all 382 baseline tests still pass with the patch (test_cholesky_factorization is load-sensitive and ignored)"
 meta["detected_by_check"] = detected
 meta["detection_note"] = note
 json.dump(meta, open(os.path.join(dst, "meta.json"), "w"), indent=1)
